@@ -126,6 +126,20 @@ static void h_op(void)
     if (!A) h_out("null"); else dump_abc();
     return;
   }
+  if (!strcmp(op, "enctype") || !strcmp(op, "enctypemem")) {
+    unsigned char *s = h_unhex(h_arg("hex") ? h_arg("hex") : "-", &n);
+    if (!strcmp(op, "enctype")) { char *cp = exact(s, strlen((char *) s) + 1); h_out("ok %d", esl_abc_EncodeType(cp)); free(cp); }
+    else { char *cp = exact(s, (size_t) n); h_out("ok %d", esl_abc_EncodeTypeMem(cp, (int) n)); free(cp); }
+    free(s);
+    return;
+  }
+  if (!strcmp(op, "dectype")) {
+    char *r = esl_abc_DecodeType((int) h_argi("t", 0));
+    if (h_exception_seen) h_out("exception %s %s", h_status(h_exception_seen), r ? "nonnull" : "null");
+    else h_out("ok %s", r ? h_hex(r, (int64_t) strlen(r)) : "null");
+    return;
+  }
+  if (!strcmp(op, "valtype")) { h_out("%s", h_status(esl_abc_ValidateType((int) h_argi("t", 0)))); return; }
   if (!A) { h_out("bad-op"); return; }
 
   if (!strcmp(op, "dump")) { dump_abc(); }
@@ -288,6 +302,47 @@ static void h_op(void)
     free(dup);
     status = esl_abc_GuessAlphabet(ct, &type);
     h_out("%s type=%d", h_status(status), type);
+  }
+  else if (!strcmp(op, "sqxadd")) {
+    /* esl_sq_CreateDigital -> esl_sq_XAddResidue each code (+ final sentinel) -> esl_sq_Checksum -> esl_sq_CountResidues
+     * (exact-size K-vector) -> esl_sq_ConvertDegen2X */
+    unsigned char *cs = h_unhex(h_arg("codes") ? h_arg("codes") : "-", &n); ESL_SQ *sq = esl_sq_CreateDigital(A);
+    int64_t i; uint32_t ck = 0; float *f; int st; char *b = NULL; size_t cap = 0, len = 0; char tmp[96]; int k;
+    for (i = 0; i < n; i++) esl_sq_XAddResidue(sq, (ESL_DSQ) cs[i]);
+    esl_sq_XAddResidue(sq, eslDSQ_SENTINEL);
+    esl_sq_Checksum(sq, &ck);
+    sprintf(tmp, "ok n=%" PRId64 " salloc=%" PRId64 " ck=%08x dsq=", sq->n, sq->salloc, ck); b = bufcat(b, &cap, &len, tmp);
+    b = bufcat(b, &cap, &len, h_hex(sq->dsq, sq->n + 2));
+    f = malloc(sizeof(float) * (size_t) A->K); for (k = 0; k < A->K; k++) f[k] = 0.0f;
+    st = esl_sq_CountResidues(sq, (int) h_argi("start", 1), (int) h_argi("L", sq->n), f);
+    sprintf(tmp, " cr=%s f=", h_status(st)); b = bufcat(b, &cap, &len, tmp);
+    for (k = 0; k < A->K; k++) { if (k) b = bufcat(b, &cap, &len, ","); b = bufcat(b, &cap, &len, fnum(f[k])); }
+    st = esl_sq_ConvertDegen2X(sq);
+    sprintf(tmp, " d2x=%s dsq2=", h_status(st)); b = bufcat(b, &cap, &len, tmp);
+    b = bufcat(b, &cap, &len, h_hex(sq->dsq, sq->n + 2));
+    h_out("%s", b);
+    free(b); free(f); free(cs); esl_sq_Destroy(sq);
+  }
+  else if (!strcmp(op, "sqcadd")) {
+    /* esl_sq_Create -> esl_sq_CAddResidue each byte (+ final NUL) -> esl_sq_Checksum; esl_sq_ConvertDegen2X must refuse text mode */
+    unsigned char *cs = h_unhex(h_arg("hex") ? h_arg("hex") : "-", &n); ESL_SQ *sq = esl_sq_Create();
+    int64_t i; uint32_t ck = 0; int st;
+    for (i = 0; i < n; i++) esl_sq_CAddResidue(sq, (char) cs[i]);
+    esl_sq_CAddResidue(sq, '\0');
+    esl_sq_Checksum(sq, &ck);
+    st = esl_sq_ConvertDegen2X(sq);
+    h_out("ok n=%" PRId64 " salloc=%" PRId64 " ck=%08x seq=%s d2x=%s%s", sq->n, sq->salloc, ck, h_hex(sq->seq, sq->n + 1),
+          h_exception_seen ? "exception-" : "", h_status(st));
+    free(cs); esl_sq_Destroy(sq);
+  }
+  else if (!strcmp(op, "sqguess")) {
+    /* esl_sq_GuessAlphabet on a text-mode sequence */
+    unsigned char *s = h_unhex(h_arg("hex") ? h_arg("hex") : "-", &n); ESL_SQ *sq; int type = -1, st;
+    if ((int64_t) strlen((char *) s) != n) { free(s); h_out("bad-op"); return; }
+    sq = esl_sq_CreateFrom("x", (char *) s, NULL, NULL, NULL);
+    st = esl_sq_GuessAlphabet(sq, &type);
+    h_out("%s type=%d", h_status(st), type);
+    esl_sq_Destroy(sq); free(s);
   }
   else if (!strcmp(op, "validateseq")) {
     unsigned char *s = h_unhex(h_arg("hex") ? h_arg("hex") : "-", &n); char errbuf[eslERRBUFSIZE];
